@@ -281,6 +281,25 @@ def gen_fitness(r, k):
                 vectors=vecs, target=r.choice([0.0, 10.0, 2.5]))
 
 
+def gen_calibration(r, k):
+    """A real calibration: pygmo archipelago of 1-3 islands whose candidates are evaluated concurrently (DaskIsland /
+    DaskBFE threads), on caller objects that have a history; optionally several processors per candidate."""
+    pname, spec, keys, lkey, has_fail = gen_spec(r, ["mem_mut", "mut_st", "two_groups", "a2p_st"][k % 4])
+    spec["readout"] = dict(times=r.choice([[1.0], [1.0, 2.0]]), non_destructive=r.random() < 0.3)
+    spec["det"]["kind"] = "ccd"
+    if not spec.get("real_memory"):
+        spec["real_memory"] = {"trap": 4.0}
+    ks = r.sample(keys, min(r.choice([1, 2]), len(keys)))
+    variables = [dict(key=key, lo=0.5, hi=r.choice([8.0, 16.0])) for key in ks]
+    inputs = []
+    rest = [key for key in keys if key not in ks]
+    if rest and r.random() < 0.4:
+        inputs = [dict(key=rest[0], values=r.sample([1.0, 2.0, 4.0], 2))]
+    return dict(kind="calibration", pipe=pname, spec=spec, variables=variables, input_arguments=inputs,
+                islands=[2, 3, 1, 2][k % 4], generations=r.choice([1, 2]), pop=7, evolutions=r.choice([1, 2]),
+                num_best=r.choice([0, 2]), pygmo_seed=r.randrange(1, 1000), target=r.choice([0.0, 20.0]))
+
+
 def gen_fitness_multi(r, k):
     """Several processors per candidate (input_arguments -> build_processors), optionally a list-valued variable
     (a slice of the decision vector) handed to a model that modifies its argument in place."""
@@ -355,6 +374,15 @@ def beh_of_fitness(o):
     for e in o["evals"]:
         runs.append((None if e["raised"] else [e["obs"]], None if e["std_raised"] else [e["std"]]))
     return before, afters, runs, 0
+
+
+def beh_of_calibration(o):
+    runs = []
+    if o["raised"] is not None:
+        runs.append((None, []))          # a calibration over accepted bounds must not raise
+    for e in o["evals"] + o["champions"]:
+        runs.append((e["obs"], e["std"]))
+    return o["before"], [o["after"]], runs, 0
 
 
 def emit_beh_case(before, afters, runs) -> str:
@@ -448,6 +476,12 @@ def viol_beh(c, o, clause) -> Violation:
                    input=c.get("input_class", "plain"))
         if c.get("container"):
             sig["container"] = c["container"]
+    elif c["kind"] == "calibration":
+        bad = [dict(x=e["x"], obs=e["obs"], std=e["std"], f=e.get("f"), f_std=e.get("f_std"))
+               for e in o["evals"] + o["champions"] if e["obs"] != e["std"]]
+        obs = dict(raised=o["raised"], changed=o["changed"][:6], candidates_differing=bad[:3],
+                   n_evals=o["n_evals"], threads=o["threads"])
+        sig = dict(clause=clause, path="calibration_archipelago", input=c.get("input_class", "plain"))
     else:
         for i, e in enumerate(o["evals"]):
             bad = ((None if e["raised"] else e["obs"]) != (None if e["std_raised"] else e["std"]))
@@ -508,7 +542,8 @@ def correspondence(ctx: Ctx, cases, tag="c"):
         name = f"{tag}_beh_{k // per_b:03d}"
         items = []
         for c, o in behs[k:k + per_b]:
-            b, a, r, skipped = beh_of_observe(o) if c["kind"] == "observe" else beh_of_fitness(o)
+            b, a, r, skipped = (beh_of_observe(o) if c["kind"] == "observe" else
+                                beh_of_calibration(o) if c["kind"] == "calibration" else beh_of_fitness(o))
             ctx.count("runs_skipped_inexact_or_unextractable", skipped)
             items.append(emit_beh_case(b, a, r))
         files[name] = beh_file(items)
@@ -565,6 +600,11 @@ def correspondence(ctx: Ctx, cases, tag="c"):
                 ctx.dist("call", f"{cfg['mode']}/{('dask-' + (cfg.get('scheduler') or 'synchronous')) if cfg['with_dask'] else 'loop'}"
                                  f"{'/raised' if call['raised'] else ''}"
                                  f"{'/rejected_value' if cfg.get('reject') else ''}")
+        elif c["kind"] == "calibration":
+            ctx.count("evaluations", len(o["evals"]) + len(o["champions"]))
+            ctx.count("calibration_candidates_evaluated_by_islands", o.get("n_evals", 0))
+            ctx.dist("call", f"calibration/{c['islands']}islands/{o.get('threads', 0) > 1 and 'concurrent' or 'serial'}"
+                             f"{'/raised' if o['raised'] else ''}")
         else:
             ctx.count("evaluations", len(o["evals"]))
             ctx.dist("call", f"fitness/{o.get('processors', 1)}proc" + ("/list_variable" if any(
@@ -574,15 +614,28 @@ def correspondence(ctx: Ctx, cases, tag="c"):
     return graphs, behs + fails, mism
 
 
+def corpus_cases():
+    """Minimised past failures (findings since repaired, classes of the seeded changes that were once missed)."""
+    d = core.VERIF / "harness" / "corpus" / "C06"
+    out = []
+    for f in sorted(d.glob("*.json")):
+        c = json.loads(f.read_text())
+        c["corpus"] = f.stem
+        out.append(c)
+    return out
+
+
 def gen_cases(ctx: Ctx, ng, no, nf, salt="cases"):
     r = ctx.rng(salt)
-    cases = [gen_graph(r, k) for k in range(ng)]
+    cases = corpus_cases() if salt == "cases" else []
+    cases += [gen_graph(r, k) for k in range(ng)]
     cases += [gen_sitefail(r, k) for k in range(max(8, ng // 4))]
     cases += [gen_observe(r, k) for k in range(no)]
     cases += [gen_observe_array(r, k) for k in range(max(3, no // 8))]
     cases += [gen_observe_container(r, k) for k in range(max(20, no // 2))]
     cases += [gen_fitness(r, k) for k in range(nf)]
     cases += [gen_fitness_multi(r, k) for k in range(max(6, nf // 2))]
+    cases += [gen_calibration(r, k) for k in range(max(3, nf // 5))]
     return cases
 
 
@@ -595,6 +648,8 @@ def nontrivial(c) -> bool:
         return True
     if c["kind"] == "observe":
         return sum(len(q["values"]) for call in c["calls"] for q in call["parameters"]) >= 2
+    if c["kind"] == "calibration":
+        return True
     return len(c["vectors"]) >= 2
 
 
@@ -644,6 +699,11 @@ def run(ctx: Ctx):
             ctx.sample(dict(kind="observe", pipe=c["pipe"], calls=c["calls"],
                             first_runs=[dict(params=r["params"], obs=(r["obs"] or [])[:3], std=(r["std"] or [])[:3])
                                         for r in o["calls"][0]["runs"][:2]]))
+        elif c["kind"] == "calibration":
+            ctx.sample(dict(kind="calibration", pipe=c["pipe"], islands=c["islands"], variables=c["variables"],
+                            input_arguments=c["input_arguments"], candidates_evaluated=o.get("n_evals"),
+                            threads=o.get("threads"), judged=len(o["evals"]), champions=len(o["champions"]),
+                            first=[dict(x=e["x"], f=e.get("f"), f_standalone=e.get("f_std")) for e in o["evals"][:2]]))
         else:
             ctx.sample(dict(kind="fitness", pipe=c["pipe"], vectors=c["vectors"],
                             evals=[dict(obs=e["obs"], std=e["std"], raised=e["raised"]) for e in o["evals"]]))
